@@ -51,7 +51,14 @@ def gen_case(rng, ver, tier, force=None):
                 continue
             opts = ["ok", "ok", "block", "rewrite"] if (ver == "v1" and spec["out_shapes"][i] != "allowed") else ["ok", "ok", "block"]
             V.append(["out", t, i, rng.choice(opts)])
-    return {"spec": spec, "turns": turns, "kinds": kinds, "V": V, "cid": "c%d" % rng.randint(0, 10**6), "fault": None}
+    opts = None
+    if ver == "v1" and turns >= 2 and rng.random() < 0.3:
+        # per-call generation options that switch a category off for ONE call must not leak into other turns
+        choices = [None, None, {"rails": {"input": False}}, {"rails": {"output": False}}, {"rails": {"input": True, "output": True, "dialog": True, "retrieval": True}}]
+        opts = [rng.choice(choices) for _ in range(turns)]
+        if all(o is None for o in opts):
+            opts[0] = {"rails": {"input": False}}
+    return {"spec": spec, "turns": turns, "kinds": kinds, "V": V, "cid": "c%d" % rng.randint(0, 10**6), "fault": None, "opts": opts}
 
 
 def expected_action_calls(case):
@@ -61,7 +68,7 @@ def expected_action_calls(case):
     n = 0
     per_turn = []
     for t in range(case["turns"]):
-        mt = rails.model_turn(spec, stub, t, "x", case["kinds"][t])
+        mt = rails.model_turn(spec, stub, t, "x", case["kinds"][t], (case.get("opts") or [None] * case["turns"])[t])
         c = len(mt["exp_in"])
         if mt["in_blocked"] is None:
             if spec.get("dialog_action") and case["kinds"][t] == "llm":
@@ -91,7 +98,7 @@ def run_conversation(case, reuse=0):
     for t in range(case["turns"]):
         app.turn = t
         text = user_text(case, t)
-        reply, exc, state = app.play_turn(msgs, state, text)
+        reply, exc, state = app.play_turn(msgs, state, text, (case.get("opts") or [None] * case["turns"])[t])
         items = list(app.log.items)
         records.append({"t": t, "text": text, "reply": reply, "raised": exc, "log": items})
         if exc is not None:
@@ -158,7 +165,7 @@ def judge(case, records, app):
             stats["turns_after_fault"] += 1
         if had_block:
             stats["turns_after_block"] += 1
-        mt = rails.model_turn(spec, app, t, rec["text"], case["kinds"][t])
+        mt = rails.model_turn(spec, app, t, rec["text"], case["kinds"][t], (case.get("opts") or [None] * case["turns"])[t])
         tagin = "C03" if had_fault else "C01"
         tagout = "C03" if had_fault else "C02"
         if not wellformed:
@@ -194,7 +201,9 @@ def judge(case, records, app):
                 if llms and not any(mt["text"] in e["prompt"] for e in llms):
                     stats["vacuous_rewrite_turns"] += 1
                 rewritten_tokens.append(orig_token)
-            if mode in ("dialog", "general", "single_call"):
+            # (only when every call uses default options: per-call options change the history-cache key, the
+            #  history is then rebuilt from the caller's own raw messages, which legitimately carry earlier originals)
+            if mode in ("dialog", "general", "single_call") and not case.get("opts"):
                 for tok in rewritten_tokens:
                     if tok == orig_token:
                         continue
